@@ -401,7 +401,7 @@ func (ex *Exec) contractCall(st *State, fr *Frame, instr ssa.Instruction, fn *ss
 	ex.obligeObjInvs(st, fr, pf, fn, key, ord, args, instr)
 	for _, c := range sp.Requires {
 		g := ex.evalClause(st, pf, c, nil)
-		ex.oblige(st, "requires", fmt.Sprintf("%s/call.%s#%d.%s", fr.key, key, ord, c.name()), c.Labels, g, c, ex.posOf(instr))
+		ex.oblige(st, "requires", fmt.Sprintf("%s/call.%s#%d.%s", fr.key, key, ord, c.name()), ex.calleeLabels(c, key), g, c, ex.posOf(instr))
 		st.assume(g)
 	}
 	for _, l := range sp.Holds {
@@ -527,7 +527,7 @@ func (ex *Exec) doGo(st *State, fr *Frame, x *ssa.Go) {
 		ex.obligeObjInvs(st, fr, pf, target, key, 0, allArgs, x)
 		for _, cl := range sp.Requires {
 			g := ex.evalClause(st, pf, cl, nil)
-			ex.oblige(st, "requires", fmt.Sprintf("%s/go.%s.%s", fr.key, key, cl.name()), cl.Labels, g, cl, ex.posOf(x))
+			ex.oblige(st, "requires", fmt.Sprintf("%s/go.%s.%s", fr.key, key, cl.name()), ex.calleeLabels(cl, key), g, cl, ex.posOf(x))
 		}
 	}
 }
@@ -598,6 +598,58 @@ func (ex *Exec) builtin(st *State, fr *Frame, instr ssa.Instruction, b *ssa.Buil
 }
 
 // ---------- channels ----------
+
+// Channel classes are a refinement of the heap location a channel lives in: every non-nil channel
+// stored at origin O has the class declared for O (none declared = class 0). Proved at every
+// store (chanClassStore), assumed at every load (chanClassLoad).
+func (ex *Exec) originClassID(origin string) int {
+	if n := ex.specs.ChanClassOf[origin]; n != "" {
+		if cc := ex.specs.Classes[n]; cc != nil {
+			return cc.ID
+		}
+		ex.specError("chan %s class %s: unknown class", origin, n)
+	}
+	return 0
+}
+
+func isChanType(t types.Type) bool {
+	if t == nil {
+		return false
+	}
+	_, ok := types.Unalias(t).Underlying().(*types.Chan)
+	return ok
+}
+
+func (ex *Exec) chanClassLoad(st *State, origin string, t types.Type, term string) {
+	if !isChanType(t) || len(ex.specs.ClassList) == 0 || strings.HasPrefix(origin, "@") {
+		return
+	}
+	st.assume(fmt.Sprintf("(=> (distinct %s 0) (= (ch_class %s) %d))", term, term, ex.originClassID(origin)))
+}
+
+func (ex *Exec) chanClassStore(st *State, origin string, t types.Type, term string) {
+	if !isChanType(t) || len(ex.specs.ClassList) == 0 || term == "0" {
+		return
+	}
+	if ex.activeClass != nil && len(ex.activeClass) == 0 {
+		return
+	}
+	labels := []string{"*"}
+	goal := fmt.Sprintf("(or (= %s 0) (= (ch_class %s) %d))", term, term, ex.originClassID(origin))
+	ex.oblige(st, "chanclass", fmt.Sprintf("%s#chanclass@%s", ex.curKey, smtSym(origin)), labels, goal, nil, "")
+}
+
+// calleeLabels: an unlabelled precondition (or captures clause) of f is assumed whenever f is
+// verified, so it is proved at the call sites visited in exactly those runs that verify f.
+func (ex *Exec) calleeLabels(c *Clause, calleeKey string) []string {
+	if len(c.Labels) > 0 {
+		return c.Labels
+	}
+	if ex.inRun == nil || ex.inRun[calleeKey] {
+		return []string{"*"}
+	}
+	return []string{"-"}
+}
 
 func (ex *Exec) chanSpec(ch Val) *ChanSpec {
 	if ch.Origin == "" {
@@ -682,6 +734,10 @@ func (ex *Exec) doRecv(st *State, fr *Frame, instr ssa.Instruction, ch Val, comm
 	for _, cc := range ex.specs.ClassList {
 		g, typed := ex.tryClause(st, fr, cc.MsgInv, map[string]Val{"m": v, "ch": ch})
 		if !typed {
+			continue
+		}
+		// assumed only in runs that also prove it at every send (same property label)
+		if ex.activeClass != nil && !ex.activeClass[cc.ID] {
 			continue
 		}
 		st.assume(smtImp(smtAnd(ok, fmt.Sprintf("(= (ch_class %s) %d)", ch.T, cc.ID)), g))
@@ -781,8 +837,11 @@ func (ex *Exec) sendMsgInv(st *State, fr *Frame, instr ssa.Instruction, ch Val, 
 		if !typed {
 			continue
 		}
+		if ex.activeClass != nil && !ex.activeClass[cc.ID] {
+			continue
+		}
 		goal := smtImp(fmt.Sprintf("(= (ch_class %s) %d)", ch.T, cc.ID), g)
-		ex.oblige(st, "msginv", fmt.Sprintf("%s/send.msginv.%s%s", fr.key, cc.Name, site), cc.MsgInv.Labels, goal, cc.MsgInv, ex.posOf(instr))
+		ex.oblige(st, "msginv", fmt.Sprintf("%s/send.msginv.%s%s", fr.key, cc.Name, site), []string{"*"}, goal, cc.MsgInv, ex.posOf(instr))
 	}
 }
 
